@@ -182,7 +182,7 @@ func (e xev) String() string {
 }
 
 type xworld struct {
-	mods     []*xmod // instantiation order: c?, b, a
+	mods     []*xmod         // instantiation order: c?, b, a
 	fns      map[string]*xfn // inst.name
 	byKey    map[string]*xfn
 	tab      [8]*xfn
@@ -520,7 +520,7 @@ func xbuild(seed uint64) *xworld {
 			}},
 		"b_host": {name: "b_host", params: sig(wenc.I64, wenc.I32), results: tI64, export: true,
 			body: func(m *xmod) []byte { return code().LocalGet(0).LocalGet(1).Call(m.ix("h_mod")).End().B },
-			sem: func(w *xworld, a []uint64) ([]uint64, string) { return w.call(w.fn("env", "h_mod"), a) }},
+			sem:  func(w *xworld, a []uint64) ([]uint64, string) { return w.call(w.fn("env", "h_mod"), a) }},
 		"b_viac": {name: "b_viac", params: tI64, results: tI64, export: true,
 			body: func(m *xmod) []byte {
 				return code().LocalGet(0).Call(m.ix("c_mul")).I64Const(3).Op(opI64Add).End().B
@@ -1117,24 +1117,32 @@ func xcheckCall(w *xworld, eng, mode string, c xcall, o, base xoutcome, mres []u
 	if mtrap != "" {
 		xr.Counts["failing_calls"]++
 	}
-	if (base.err == "") != (o.err == "") || base.panicv != o.panicv || hexs(xmask(c.Entry.fn.results, base.res)) != hexs(xmask(c.Entry.fn.results, o.res)) {
+	if outcomeOK && ((base.err == "") != (o.err == "") || base.panicv != o.panicv || hexs(xmask(c.Entry.fn.results, base.res)) != hexs(xmask(c.Entry.fn.results, o.res))) {
 		viol("cross-module:guest-result-differs-with-listeners", fmt.Sprintf("without listeners: %s\nwith listeners:    %s", base, o))
 	}
 
 	// (1) every event is delivered to the object created for that definition; (2) bracket automaton
+	// within one call only the first stream violation is reported: everything after it is a consequence
+	reported := false
+	sviol := func(sig, detail string) {
+		if !reported {
+			viol(sig, detail)
+		}
+		reported = true
+	}
 	var stack []string
 	for i, e := range o.events {
 		k := xkinds(e.K)
 		xr.Counts["events_"+k+"_"+eng]++
 		f := w.byKey[e.Key]
 		if e.Owner != e.Key {
-			viol("cross-module:event-delivered-to-listener-of-other-function:"+k,
+			sviol("cross-module:event-delivered-to-listener-of-other-function:"+k,
 				fmt.Sprintf("event %d: %s was delivered to the listener object that the factory created for %s", i, e, e.Owner))
 		}
 		if f == nil {
-			viol("cross-module:event-with-unknown-definition:"+k, fmt.Sprintf("event %d: %s: no such function (ModuleName#Index:Name)", i, e))
+			sviol("cross-module:event-with-unknown-definition:"+k, fmt.Sprintf("event %d: %s: no such function (ModuleName#Index:Name)", i, e))
 		} else if !w.listened(f) {
-			viol("cross-module:event-for-function-without-listener:"+k, fmt.Sprintf("event %d: %s: the factory returned nil for this function", i, e))
+			sviol("cross-module:event-for-function-without-listener:"+k, fmt.Sprintf("event %d: %s: the factory returned nil for this function", i, e))
 		}
 		if f != nil && e.K == 'A' && f.inst != c.Entry.fn.inst && !f.host {
 			xr.Counts["after_events_of_functions_outside_the_entry_module"]++
@@ -1143,27 +1151,27 @@ func xcheckCall(w *xworld, eng, mode string, c xcall, o, base xoutcome, mres []u
 		case 'B':
 			stack = append(stack, e.Key)
 			if e.It0 != e.Key {
-				viol("cross-module:iterator-first-not-callee", fmt.Sprintf("event %d: %s: the stack iterator starts with %s", i, e, e.It0))
+				sviol("cross-module:iterator-first-not-callee", fmt.Sprintf("event %d: %s: the stack iterator starts with %s", i, e, e.It0))
 			}
 		default:
 			if e.K == 'X' && !failed {
-				viol("cross-module:abort-delivered-but-call-succeeded", fmt.Sprintf("event %d: %s but the top-level call returned %s", i, e, o))
+				sviol("cross-module:abort-delivered-but-call-succeeded", fmt.Sprintf("event %d: %s but the top-level call returned %s", i, e, o))
 			}
 			if len(stack) == 0 {
-				viol("cross-module:"+k+"-without-open-before", fmt.Sprintf("event %d: %s with no open Before", i, e))
+				sviol("cross-module:"+k+"-without-open-before", fmt.Sprintf("event %d: %s with no open Before", i, e))
 			} else if stack[len(stack)-1] != e.Key {
 				open := false
 				for _, s := range stack {
 					open = open || s == e.Key
 				}
 				if open {
-					viol("cross-module:"+k+"-not-for-innermost-open-call", fmt.Sprintf("event %d: %s while the innermost open call is %s", i, e, stack[len(stack)-1]))
+					sviol("cross-module:"+k+"-not-for-innermost-open-call", fmt.Sprintf("event %d: %s while the innermost open call is %s", i, e, stack[len(stack)-1]))
 					for stack[len(stack)-1] != e.Key {
 						stack = stack[:len(stack)-1]
 					}
 					stack = stack[:len(stack)-1]
 				} else {
-					viol("cross-module:"+k+"-without-open-before", fmt.Sprintf("event %d: %s but no Before of it is open (open: %v)", i, e, stack))
+					sviol("cross-module:"+k+"-without-open-before", fmt.Sprintf("event %d: %s but no Before of it is open (open: %v)", i, e, stack))
 				}
 			} else {
 				stack = stack[:len(stack)-1]
@@ -1171,12 +1179,12 @@ func xcheckCall(w *xworld, eng, mode string, c xcall, o, base xoutcome, mres []u
 		}
 	}
 	if len(stack) > 0 {
-		viol("cross-module:before-never-closed", fmt.Sprintf("%d Before events without After/Abort when the top-level call returned (%s); open: %v", len(stack), o, stack))
+		sviol("cross-module:before-never-closed", fmt.Sprintf("%d Before events without After/Abort when the top-level call returned (%s); open: %v", len(stack), o, stack))
 	}
 
 	// (3) the stream is exactly the model's: kinds, definitions, params/results
-	if !outcomeOK {
-		return // the stream necessarily differs; the outcome violation names the cause
+	if !outcomeOK || reported {
+		return // the stream necessarily differs; the violation already reported names the cause
 	}
 	n := min(len(o.events), len(exp))
 	diff := -1
@@ -1210,7 +1218,11 @@ func xcheckCall(w *xworld, eng, mode string, c xcall, o, base xoutcome, mres []u
 			okMod = g.Mod == x.Fn.inst || (callerInst != "" && g.Mod == callerInst)
 		}
 		if !okMod {
-			viol("cross-module:mod-argument-is-neither-calling-nor-defining-module:"+xkinds(g.K),
+			what := "mod-argument-is-neither-calling-nor-defining-module:"
+			if x.Fn.host && g.K != 'X' {
+				what = "host-function-mod-argument-is-not-the-calling-module:"
+			}
+			viol("cross-module:"+what+xkinds(g.K),
 				fmt.Sprintf("event %d: %s: function defined in instance %q, called from %q", i, g, x.Fn.inst, callerInst))
 		} else if g.K != 'X' && !x.Fn.host && callerInst != "" && callerInst != x.Fn.inst {
 			if g.Mod == callerInst {
